@@ -457,7 +457,7 @@ Section content_ind.
           (Hmath : forall b, Forall P b -> P (CMath b))
           (Hdecl : forall c b, Forall P b -> P (CDecl c b))
           (Htable : forall ak cols rows, Forall (Forall (Forall P)) rows -> P (CTable ak cols rows))
-          (Hlist : forall lk items, Forall (fun it => Forall P (snd it)) items -> P (CList lk items)).
+          (Hlist : forall lk pre items, Forall (fun it => Forall P (snd it)) items -> P (CList lk pre items)).
   Fixpoint content_ind' (c : content) : P c :=
     let fix go (l : list content) : Forall P l :=
       match l with [] => Forall_nil P | x :: xs => Forall_cons x (content_ind' x) (go xs) end in
@@ -477,8 +477,8 @@ Section content_ind.
                         match l2 with [] => Forall_nil _ | cell :: cs => Forall_cons cell (go cell) (go2 cs) end) row)
                     (go3 rs)
               end) rows)
-    | CList lk items =>
-        Hlist lk items
+    | CList lk pre items =>
+        Hlist lk pre items
           ((fix goi (l : list (option (list Z) * list content)) : Forall (fun it => Forall P (snd it)) l :=
               match l with
               | [] => Forall_nil _
@@ -614,7 +614,7 @@ Definition item_tree (d : Z) (it : option (list Z) * list content) : tree :=
 
 Lemma print_head : forall c d, exists tok r, print d c = tok :: r /\ (wf c = true -> blank_content c = false -> is_ws tok = false).
 Proof.
-  intros c d. destruct c as [kd|b|b|c0 b|ak cols rows|lk items]; cbn [print]; eexists _, _; (split; [reflexivity|]); intros Hw Hb; try reflexivity.
+  intros c d. destruct c as [kd|b|b|c0 b|ak cols rows|lk pre items]; cbn [print]; eexists _, _; (split; [reflexivity|]); intros Hw Hb; try reflexivity.
   simpl in *. destruct kd; try discriminate; reflexivity.
 Qed.
 
@@ -681,13 +681,19 @@ Proof.
     + cbn [add_child]. apply IH; try assumption. rewrite <- app_assoc. exact H.
 Qed.
 
-Lemma DGc_list : forall lk items, Forall (fun it => Forall absorbs (snd it)) items -> wf (CList lk items) = true -> forall d k,
-  DG (leaf (KBegin (EList lk) []) (d + 1)) ((flat_map (item_stream d) items ++ [leaf (KEnd (EList lk)) d]) ++ k)
+Definition blank_stream (d : Z) (pre : list bool) : stream :=
+  map (fun b : bool => leaf (if b then KPar else KSpace) (d + 1)) pre.
+
+Lemma skip_ws_blanks : forall d pre s, skip_ws (blank_stream d pre ++ s) = skip_ws s.
+Proof. intros d. induction pre as [|b pre IH]; intros s; [reflexivity|]. destruct b; cbn [blank_stream map app skip_ws is_ws leaf]; apply IH. Qed.
+
+Lemma DGc_list : forall lk pre items, Forall (fun it => Forall absorbs (snd it)) items -> wf (CList lk pre items) = true -> forall d k,
+  DG (leaf (KBegin (EList lk) []) (d + 1)) ((blank_stream d pre ++ flat_map (item_stream d) items ++ [leaf (KEnd (EList lk)) d]) ++ k)
      (T (KBegin (EList lk) []) (d + 1) (map (item_tree d) items), k).
 Proof.
-  intros lk items HF Hwf d k. cbn [wf] in Hwf.
+  intros lk pre items HF Hwf d k. cbn [wf] in Hwf.
   apply (DG_list _ _ _ lk []); [reflexivity|].
-  rewrite <- app_assoc. cbn [app].
+  rewrite <- !app_assoc. cbn [app]. rewrite skip_ws_blanks.
   assert (Hsk : skip_ws (flat_map (item_stream d) items ++ leaf (KEnd (EList lk)) d :: k)
                 = flat_map (item_stream d) items ++ leaf (KEnd (EList lk)) d :: k).
   { destruct items as [|[t' b'] items']; cbn [flat_map item_stream app]; apply skip_ws_nonws; reflexivity. }
@@ -695,10 +701,11 @@ Proof.
   apply EL_end; [eexists _, _; reflexivity|]. unfold is_end_of. cbn. apply Z.eqb_refl.
 Qed.
 
-Lemma absorbs_clist : forall lk items, Forall (fun it => Forall absorbs (snd it)) items -> absorbs (CList lk items).
+Lemma absorbs_clist : forall lk pre items, Forall (fun it => Forall absorbs (snd it)) items -> absorbs (CList lk pre items).
 Proof.
-  intros lk items HF Hwf d X ok L HA self k R Hok Hd _ H.
+  intros lk pre items HF Hwf d X ok L HA self k R Hok Hd _ H.
   cbn [print tree_of] in *. cbn [app].
+  change (map _ pre) with (blank_stream d pre).
   change (flat_map _ items) with (flat_map (item_stream d) items).
   change (map _ items) with (map (item_tree d) items) in H.
   apply (abs_elem ok L HA self (leaf (KBegin (EList lk) []) (d + 1)) _ (T (KBegin (EList lk) []) (d + 1) (map (item_tree d) items)) k R Hok);
@@ -874,14 +881,14 @@ Theorem digest_print_DG : forall c, wf c = true -> compound c = true ->
   forall d k, (is_decl c = true -> closer d k) ->
   exists tok rest, print d c = tok :: rest /\ DG tok (rest ++ k) (tree_of d c, k).
 Proof.
-  intros c Hwf Hc d k Hcl. destruct c as [kd|b|b|c0 b|ak cols rows|lk items]; [discriminate| | | | |];
+  intros c Hwf Hc d k Hcl. destruct c as [kd|b|b|c0 b|ak cols rows|lk pre items]; [discriminate| | | | |];
     cbn [print tree_of]; eexists _, _; (split; [reflexivity|]).
   - apply DGc_group; [apply Forall_absorbs|exact Hwf].
   - apply DGc_math; [apply Forall_absorbs|exact Hwf].
   - apply DGc_decl; [apply Forall_absorbs|exact Hwf|apply Hcl; reflexivity].
   - apply (DGc_table ak cols rows); [|exact Hwf].
     apply Forall_forall. intros row _. apply Forall_forall. intros cell _. apply Forall_absorbs.
-  - apply (DGc_list lk items); [|exact Hwf]. apply Forall_forall. intros it _. apply Forall_absorbs.
+  - apply (DGc_list lk pre items); [|exact Hwf]. apply Forall_forall. intros it _. apply Forall_absorbs.
 Qed.
 
 (* M1 + M5 (+ the structural half of M6): digest_top, with the fuel it gives itself, turns the printed source of every
@@ -902,11 +909,11 @@ Theorem table_roundtrip : forall ak cols rows, wf (CTable ak cols rows) = true -
             (map (fun row => T KRow (d + 2) (map (fun cell => T KCell (d + 2) (map (tree_of (d + 2)) cell)) row)) rows), k).
 Proof. intros ak cols rows Hwf d k. exact (roundtrip (CTable ak cols rows) Hwf eq_refl eq_refl d k). Qed.
 
-Theorem list_roundtrip : forall lk items, wf (CList lk items) = true -> forall d k,
-  digest_top (print d (CList lk items) ++ k)
+Theorem list_roundtrip : forall lk pre items, wf (CList lk pre items) = true -> forall d k,
+  digest_top (print d (CList lk pre items) ++ k)
   = Some (T (KBegin (EList lk) []) (d + 1)
             (map (fun it => match it with (t, b) => T (KItem t) (d + 1) (map (tree_of (d + 1)) b) end) items), k).
-Proof. intros lk items Hwf d k. exact (roundtrip (CList lk items) Hwf eq_refl eq_refl d k). Qed.
+Proof. intros lk pre items Hwf d k. exact (roundtrip (CList lk pre items) Hwf eq_refl eq_refl d k). Qed.
 
 (* a declaration written in one cell scopes over the rest of that cell only: the next cell is a sibling holding exactly its own
    content, whatever follows in the row *)
@@ -931,7 +938,7 @@ Qed.
    implementation expands "\begin{itemize}\item a\bfseries b\item c\end{itemize}" to: same tokens as the print, deeper
    after the declaration) and the declaration swallows them: the digested tree is not the one the property demands *)
 Theorem list_declaration_refuted :
-  let c := CList 0 [(None, [CLeaf (KChar 97); CDecl 0 [CLeaf (KChar 98)]]); (None, [CLeaf (KChar 99)])] in
+  let c := CList 0 [] [(None, [CLeaf (KChar 97); CDecl 0 [CLeaf (KChar 98)]]); (None, [CLeaf (KChar 99)])] in
   let s := [leaf (KBegin (EList 0) []) 1; leaf (KItem None) 1; leaf (KChar 97) 1; leaf (KBegin (EDecl 0) []) 2;
             leaf (KChar 98) 2; leaf (KItem None) 2; leaf (KChar 99) 2; leaf (KEnd (EList 0)) 0] in
   map kind_of s = map kind_of (print 0 c) /\ digest_top s <> Some (tree_of 0 c, []).
